@@ -178,6 +178,7 @@ def g_compare(repo):
     g.type(PV, 'PathAwareValue', derive=None)
     g.raw('prelude_cmp.rs')
     g.fn(None, PV, 'type_info', impl=r'impl PathAwareValue', stub=True, wrap_impl='impl PathAwareValue')
+    g.fn(None, PV, 'compare_eq', spec='compare_eq_stub.spec', stub=True)
     g.fn('U-cmpv', PV, 'compare_values', spec='compare_values.spec', props=['C13'])
     for op in ('lt', 'le', 'gt', 'ge'):
         g.fn('U-' + op, PV, 'compare_' + op, spec='compare_%s.spec' % op, props=['C13'])
@@ -316,7 +317,7 @@ def g_structured(repo):
     g.type(S, 'CommonStructuredReporter', derive=None, extra_subst=[('crate::utils::writer::Writer', 'Writer')] + [
         ('    %s: ' % n, '    pub %s: ' % n) for n in ('rules', 'data', 'writer', 'exit_code', 'output')])
     g.fn('U-sreport', S, 'report', impl=r"StructuredReporter for CommonStructuredReporter<'reporter>", spec='structured_report.spec',
-         wrap_impl="impl<'reporter> CommonStructuredReporter<'reporter>", props=['C06', 'C08'])
+         wrap_impl="impl<'reporter> CommonStructuredReporter<'reporter>", props=['C06', 'C08', 'C09'])
     return g
 
 
